@@ -6,9 +6,9 @@ import (
 	_ "verif/harness/internal/engf"
 	_ "verif/harness/internal/engg"
 	_ "verif/harness/internal/engh"
+	_ "verif/harness/internal/engk"
 	_ "verif/harness/internal/engl"
 	_ "verif/harness/internal/engs"
-	// engine K is linked in once its checks are registered in MANIFEST.json
 )
 
 func main() { core.Main() }
